@@ -36,7 +36,7 @@ PROP_FILES = {
     'C03': READERS, 'C05': READERS, 'C07': READERS, 'C18': READERS,
     'C04': ['pyais/decode.py', 'pyais/messages.py', 'pyais/util.py', 'pyais/exceptions.py'],
     'C06': ['pyais/stream.py'],
-    'C10': ['pyais/messages.py', 'pyais/util.py', 'pyais/decode.py', 'pyais/exceptions.py'],
+    'C10': ['pyais/messages.py', 'pyais/util.py', 'pyais/decode.py', 'pyais/exceptions.py', 'pyais/stream.py', 'pyais/queue.py'],
     'C12': ['pyais/tracker.py'], 'C13': ['pyais/tracker.py'], 'C14': ['pyais/tracker.py'], 'C15': ['pyais/tracker.py'],
     'C16': ['pyais/messages.py', 'pyais/util.py', 'pyais/exceptions.py'],
     'C17': ['pyais/stream.py', 'pyais/queue.py', 'pyais/messages.py', 'pyais/util.py', 'pyais/exceptions.py'],
